@@ -150,7 +150,7 @@ func (x *Exec) judge() (viols []Viol, st Stats) {
 		}
 	}
 
-	hasGoexit := sc.hasGoexit()
+	hasGoexit := sc.hasGoexit() || sc.EmitGoexitAt > 0 // (an emitter that kills the loop's goroutine: only termination and leaks are judged)
 	cancelled := cancelReq != 0
 
 	// Did a cancel() certainly complete before Wait read the context for the
@@ -225,7 +225,7 @@ func (x *Exec) judge() (viols []Viol, st Stats) {
 	}
 
 	// ---- C08: ContinueOnError ----------------------------------------------
-	if sc.COE {
+	if sc.COE && sc.EmitGoexitAt == 0 {
 		for i := range x.recs {
 			if ran[i] && blockedBy[i] {
 				add("C08", "job %d ran although a job it transitively depends on did not succeed", i)
@@ -301,6 +301,9 @@ func (x *Exec) judge() (viols []Viol, st Stats) {
 			}
 			if sc.Family == "saturate" && !sc.Jobs[i].Gate {
 				must[i] = "every worker was busy until after cancel() had returned"
+			}
+			if x.recs[i].held.Load() {
+				must[i] = "cancel() had returned while the worker that received the job had not yet looked at the job's context"
 			}
 		}
 		dependsOnCanceller := make([]bool, n)
